@@ -132,6 +132,9 @@ def load(names=None, include_heavy=True, quiet=True):
                         spec["transfer"] = False
                     if i % 4 == 1:
                         spec["nprogs"] = max(spec["nprogs"], 2)
+                    if i % 5 == 1:
+                        spec["nprogs"] = 3
+                        spec["explicit_interaction"] = True
                     P = modelgen.build_project(spec, name=name)
                     P.run_sim(P.parsets[0], store_results=False)
                     meta = _describe(P)
